@@ -235,7 +235,35 @@ func runItems(items []Item, extraDir string, nw int) ([]*ItemResult, error) {
 				mu.Unlock()
 				b, _ := json.Marshal(items[i])
 				in.Write(append(b, '\n'))
-				l, err := out.ReadString('\n')
+				// hard watchdog: a worker stuck in one solver query or one long path is killed
+				type rd struct {
+					l   string
+					err error
+				}
+				ch := make(chan rd, 1)
+				rdr := out
+				go func() { l, err := rdr.ReadString('\n'); ch <- rd{l, err} }()
+				var l string
+				var err error
+				limit := time.Duration(items[i].TimeoutS+90) * time.Second
+				select {
+				case r := <-ch:
+					l, err = r.l, r.err
+				case <-time.After(limit):
+					cmd.Process.Kill()
+					<-ch
+					results[i] = &ItemResult{Item: items[i], Incomplete: "killed by the watchdog: no result within the time limit (a single path or solver query did not finish)", Paths: 1, Reached: map[string]int{"end": 1}}
+					cmd.Wait()
+					if err := start(); err != nil {
+						mu.Lock()
+						if firstErr == nil {
+							firstErr = err
+						}
+						mu.Unlock()
+						return
+					}
+					continue
+				}
 				if err != nil {
 					// worker died (engine crash / OOM): record and restart
 					results[i] = &ItemResult{Item: items[i], Error: "worker process died while running this item"}
